@@ -290,10 +290,29 @@ func (p P) Exec(line string) string {
 	if len(f) < 2 || f[0] != "C13" {
 		return "bad-op"
 	}
-	if f[1] == "par" {
-		return execPar(f[2])
+	if f[1] == "genpanic" {
+		return "generator-panic"
 	}
-	return exec1(f[1], f[2:])
+	// watchdog: a loop in the (mutated) tree that no longer terminates is an answer, not a hang
+	done := make(chan string, 1)
+	go func() {
+		defer func() {
+			if r := recover(); r != nil {
+				done <- "panic"
+			}
+		}()
+		if f[1] == "par" {
+			done <- execPar(f[2])
+		} else {
+			done <- exec1(f[1], f[2:])
+		}
+	}()
+	select {
+	case out := <-done:
+		return out
+	case <-time.After(60 * time.Second):
+		return "timeout"
+	}
 }
 
 // execPar runs every sub-line (tokens joined by "^", sub-lines by "~") in its
